@@ -95,6 +95,39 @@ def gen_cells(ck):
         script = ac.gen_script(rng, n_rounds, 4, again_p=rng.choice([0.0, 0.0, 0.25]), moo=rng.random() < 0.12)
         mode = "search" if (search != "RegEvo" and rng.random() < 0.12) else "asktell"
         cells.append((cell, spec, script, mode))
+    # conditional log-uniform children whose lower bound (= the canonical inactive value) does not
+    # survive transform -> inverse_transform, tree surrogates, sessions long past the random phase:
+    # inactive branches are then proposed from the model and must still carry the exact lower bound
+    for k in range(ck.pick(14, 150)):
+        parent = rng.choice([
+            {"name": "c_kind", "kind": "cat", "choices": ["dense", "conv", "none"]},
+            {"name": "c_kind", "kind": "cat", "choices": [True, False]},
+            {"name": "c_kind", "kind": "ord", "choices": [1, 2, 4]},
+            {"name": "c_kind", "kind": "int", "lo": 0, "hi": 3, "log": False},
+        ])
+        pv = ac._values_of(parent)
+        lo, hi = rng.choice([(3e-5, 7e3), (3e-4, 1.0), (2e-3, 5.0), (7e-3, 70.0)])
+        child = {"name": rng.choice(["a_rate", "z_rate"]), "kind": "float", "lo": lo, "hi": hi, "log": True}
+        hps = [parent, ac.with_default(rng, child, force=rng.random() < 0.5)]
+        conds = [{"child": child["name"], "cond": {"op": "eq", "parent": "c_kind", "value": pv[0]}
+                  if parent["kind"] != "int" else {"op": "gt", "parent": "c_kind", "value": 1}}]
+        if rng.random() < 0.5:
+            c2 = {"name": rng.choice(["b_units", "y_units"]), "kind": "int", "lo": rng.choice([2, 8]), "hi": 64, "log": True}
+            hps.append(c2)
+            conds.append({"child": c2["name"], "cond": {"op": "ne", "parent": "c_kind", "value": pv[-1]}})
+        if rng.random() < 0.5:
+            hps.append(ac.gen_hp(rng, "m_free", ["float", "int", "cat_str"]))
+        spec = {"hps": hps, "conds": conds, "forbs": [],
+                "reads": [rng.sample(["len", "names", "default", "str", "space"], 1) if rng.random() < 0.5 else []
+                          for _ in range(len(hps) + 3)]}
+        cell = {"search": "CBO", "seed": rng.randint(0, 10**6), "n_initial": 2, "n_points": 24,
+                "surrogate": rng.choice(["RF", "ET", "TB", "RS", "GBRT"]), "acq": rng.choice(["UCB", "EI", "UCBd"]),
+                "strategy": rng.choice(["cl_max", "cl_min", "qUCB", "cl_mean"]), "design": "random",
+                "filter_failures": rng.choice(["min", "mean"])}
+        script = ac.gen_script(rng, rng.randint(9, 12), 2, fail_p=0.05)
+        for st in script:
+            st["tell"] = [True]
+        cells.append((cell, spec, script, "asktell"))
     return cells
 
 
@@ -333,7 +366,7 @@ def _cs_cases(ck, d):
             continue
         problem = ac.build_problem(spec)
         cs = problem.space
-        names = list(problem.hyperparameter_names)
+        names = list(problem.space.keys())
         by = {h["name"]: h for h in spec["hps"]}
         decl = ac.decl_of(spec, problem, None)
 
@@ -395,7 +428,7 @@ def _fill_cases(ck, d):
     for s in range(ck.pick(16, 120)):
         spec = ac.gen_spec(rng, constrained=rng.random() < 0.8)
         problem = ac.build_problem(spec)
-        names = list(problem.hyperparameter_names)
+        names = list(problem.space.keys())
         decl = ac.decl_of(spec, problem, None)
         seen = []
         orig = CS.ConfigurationSpace.sample_configuration
@@ -463,7 +496,7 @@ def _regevo_cases(ck, d):
     for sidx in range(ck.pick(14, 120)):
         spec = ac.gen_spec(rng, constrained=rng.random() < 0.75)
         problem = ac.build_problem(spec)
-        names = list(problem.hyperparameter_names)
+        names = list(problem.space.keys())
         decl = ac.decl_of(spec, problem, None)
         pop_size = rng.randint(2, 5)
         sample_size = rng.randint(1, pop_size - 1)
